@@ -1,4 +1,5 @@
 import LivesimVerif.Model.Fault
+import LivesimVerif.Model.Traffic
 import Driver.Core
 /-! Driver ops `loss` and `stat` (C14). -/
 open Drv Core
@@ -48,4 +49,19 @@ def opStat (st : DState) (args : List String) : String :=
             | .found _ => "200"
             | .status s => (statusStr s).takeWhile (· ≠ ' ') |>.toString
     | _, _, _, _, _ => "bad-op"
+  | _ => "bad-op"
+
+/-! op `tdec <traffic patterns> <directory> <nowMS>`: a video segment of testpic_2s (2 s segments, the newest complete one
+at `nowMS`) requested through `<directory>/` with `traffic_<patterns>` configured: the HTTP status -/
+def opTdec (args : List String) : String :=
+  match args with
+  | [tr, dir, now] =>
+    match Cfg.parseTraffic tr, now.toNat? with
+    | some pats, some nowMS =>
+      let k := (nowMS - 2999) / 2000
+      -- (the handler works on the query-unescaped path: a `+` arrives as a blank)
+      let path := "/" ++ dir.replace "+" " " ++ "/V300/" ++ toString k ++ ".m4s"
+      let d := (Traffic.route pats path.toList nowMS).1
+      if d == .crash then "PANIC" else toString d.code
+    | _, _ => "bad-op"
   | _ => "bad-op"
